@@ -114,7 +114,9 @@ def run_cases(ctx, cases, prefix, canary=None, only=None):
             # sampled cross-check of the front end itself: the real code on float tensors against the contract evaluated
             # numerically (the symbolic run proved code == contract through the primitive models; a disagreement here
             # means a model of a torch primitive is wrong -> checker defect, exit 3, never a verdict)
-            if not canary and want is not None and vc.pos == len(vc.prefix) and case.name not in sampled:
+            refuted = any(x[0] != "discharged" for k, v in vc.results.items() if k.startswith(nm + "/") for x in v)
+            if not canary and want is not None and vc.pos == len(vc.prefix) and case.name not in sampled and not refuted:
+                # (only where the symbolic run claims code == contract: a refuted case disagrees numerically by design)
                 sampled.add(case.name)
                 _cross_check(ctx, vc, case, want)
             # frame: inputs the contract does not hand over are not written, and still hold their values
